@@ -345,9 +345,6 @@ Definition in_domain (c : call) : bool :=
   | FSearch => bounds2_ok c && not_test_not (c_test c)
   | FMismatch =>
       bounds2_ok c && not_test_not (c_test c) &&
-      (* KF start = length is rejected unless everything is defaulted on an empty sequence *)
-      ((s_start c <? length l1)%nat || (start_absent (c_start c) && start_absent (c_end c) && (length l1 =? 0)%nat)) &&
-      ((s_start2 c <? length l2)%nat || (start_absent (c_start2 c) && start_absent (c_end2 c) && (length l2 =? 0)%nat)) &&
       (* KF from-end: the index of an element mismatch is counted from the wrong side *)
       (negb (c_from_end c) ||
        (let w1 := map (key_app (c_key c)) (slice (s_start c) (s_end c l1) l1) in
@@ -357,11 +354,7 @@ Definition in_domain (c : call) : bool :=
         | Some j => (j =? Nat.min (length w1) (length w2))%nat
         end))
   | FSubseq => true
-  | FReplace =>
-      bounds2_ok c &&
-      ((s_start c <? length l1)%nat || (start_absent (c_start c) && start_absent (c_end c) && (length l1 =? 0)%nat) || negb (not_nil (c_seq c))) &&
-      (match c_end c with Some e => (e <? length l1)%nat | None => true end) &&      (* KF :end1 = length *)
-      ((s_start2 c <? length l2)%nat || (start_absent (c_start2 c) && start_absent (c_end2 c) && (length l2 =? 0)%nat))
+  | FReplace => bounds2_ok c
   | FFill =>
       not_nil (c_seq c) && negb (c_end_nil c) && (s_start c <? length l1)%nat &&    (* KF nil, :end nil, :end = length, empty *)
       (match c_end c with Some e => (e <? length l1)%nat | None => true end)
